@@ -15,6 +15,7 @@ import xonsh.platform as xp
 import xonsh.procs.jobs as xj
 import xonsh.tools as xt
 from xonsh.built_ins import XSH
+from xonsh.lib import verifhooks as _vh
 from xonsh.procs.readers import ConsoleParallelReader, NonBlockingFDReader, safe_fdclose
 
 
@@ -385,8 +386,10 @@ class CommandPipeline:
             # (e.g. sleep) and get interrupted by Ctrl+C.  Reading first
             # ensures that output already produced by the last process
             # (e.g. echo) is captured in self.lines regardless.
+            _vh.point("main.before_read")
             stdout_lines = safe_readlines(stdout, 1024)
             i = len(stdout_lines)
+            _vh.point("main.read", n=sum(map(len, stdout_lines)), final=False)
             if i != 0:
                 yield from stdout_lines
             stderr_lines = safe_readlines(stderr, 1024)
@@ -440,9 +443,11 @@ class CommandPipeline:
         proc.prevs_are_closed = True
 
         # read from process now that it is over
+        _vh.point("main.loop_ended")
         yield from safe_readlines(stdout)
         self.stream_stderr(safe_readlines(stderr))
         proc.wait()
+        _vh.point("main.waited")
         self._endtime()
         yield from safe_readlines(stdout)
         self.stream_stderr(safe_readlines(stderr))
